@@ -157,3 +157,33 @@ func OrderOracle(isL, isR func(ssa.Value) bool, ord int, extra func(v ssa.Value)
 		return false, false
 	}
 }
+
+// CutUnder returns the CFG edges that are inconsistent with an abstract
+// assignment of leaf conditions: for every If whose condition (after stripping
+// negations) is decided by the oracle, the edge of the opposite outcome is cut.
+func CutUnder(fn *ssa.Function, oracle AbsOracle) map[Edge]bool {
+	out := map[Edge]bool{}
+	for _, b := range fn.Blocks {
+		if len(b.Instrs) == 0 {
+			continue
+		}
+		iff, ok := b.Instrs[len(b.Instrs)-1].(*ssa.If)
+		if !ok {
+			continue
+		}
+		c, flip := stripNot(iff.Cond)
+		val, known := oracle(c)
+		if !known {
+			continue
+		}
+		if flip {
+			val = !val
+		}
+		if val {
+			out[Edge{b, 1}] = true
+		} else {
+			out[Edge{b, 0}] = true
+		}
+	}
+	return out
+}
